@@ -122,6 +122,10 @@ type c8Scenario struct {
 	Target    string `json:"target"` // "const:<k>" index into thresholds, or "step:<j>"
 	OffsetSec int    `json:"template_offset_sec"`
 	Accept    string `json:"process_result"` // "accept" | "reject" | "orphan"
+	// Heights, if set: the chain offers these heights in turn (it moves to the next one after
+	// each accepted block): a reorg re-offers a height that was already mined
+	Heights []uint64 `json:"heights,omitempty"`
+	Horizon int      `json:"horizon,omitempty"`
 }
 
 const (
@@ -168,6 +172,23 @@ type c8World struct {
 
 func (w *c8World) slot(t realtime.Time) uint64 { return uint64(t.Unix()) / pocSlot }
 
+// height currently offered by the fake chain
+func (w *c8World) height() uint64 {
+	if len(w.sc.Heights) == 0 {
+		return c8Height
+	}
+	n := 0
+	for _, s := range w.submits {
+		if s.result == "accept" {
+			n++
+		}
+	}
+	if n >= len(w.sc.Heights) {
+		n = len(w.sc.Heights) - 1
+	}
+	return w.sc.Heights[n]
+}
+
 func (w *c8World) target(t realtime.Time) *big.Int {
 	s0 := w.slot(w.tsBase)
 	k := int(w.slot(t) - s0)
@@ -208,13 +229,14 @@ func (w *c8World) ProcessBlock(b *massutil.Block) (bool, error) {
 func (w *c8World) NewBlockTemplate(addrs []massutil.Address, ch chan interface{}) error {
 	w.mu.Lock()
 	stale := w.staleTip
+	hgt := w.height()
 	w.mu.Unlock()
 	if stale {
 		ch <- &blockchain.PoCTemplate{Err: errors.New("no template: chain moved on")}
 		return nil
 	}
 	ch <- &blockchain.PoCTemplate{
-		Height:    c8Height,
+		Height:    hgt,
 		Timestamp: w.tsBase,
 		Previous:  w.prev,
 		Challenge: wire.Hash(w.fix.challenge),
@@ -233,8 +255,8 @@ func (w *c8World) NewBlockTemplate(addrs []massutil.Address, ch chan interface{}
 		},
 	}
 	h := w.coinbase.TxHash()
-	blk := &wire.MsgBlock{Header: wire.BlockHeader{Version: 1, Height: c8Height, Previous: w.prev}, Transactions: []*wire.MsgTx{w.coinbase}}
-	ch <- &blockchain.BlockTemplate{Block: blk, Height: c8Height, MerkleCache: []*wire.Hash{&h}, WitnessMerkleCache: []*wire.Hash{&h}, TotalFee: massutil.ZeroAmount()}
+	blk := &wire.MsgBlock{Header: wire.BlockHeader{Version: 1, Height: hgt, Previous: w.prev}, Transactions: []*wire.MsgTx{w.coinbase}}
+	ch <- &blockchain.BlockTemplate{Block: blk, Height: hgt, MerkleCache: []*wire.Hash{&h}, WitnessMerkleCache: []*wire.Hash{&h}, TotalFee: massutil.ZeroAmount()}
 	return nil
 }
 
@@ -496,7 +518,7 @@ func c8Check(r *vk.Run, w *c8World, sched []string, st *c8Stats) {
 			return
 		}
 		k := int((ts.Unix() - w.tsBase.Unix()) / pocSlot)
-		q := dp.Quality(w.slot(ts), c8Height)
+		q := dp.Quality(w.slot(ts), hdr.Height)
 		if q.Cmp(w.target(ts)) <= 0 {
 			viol("quality-not-above-target", fmt.Sprintf("block %d: quality at its slot does not exceed the target at its timestamp", n))
 			return
@@ -505,11 +527,11 @@ func c8Check(r *vk.Run, w *c8World, sched []string, st *c8Stats) {
 			viol("header-target", "header target is not the template's target at the block timestamp")
 			return
 		}
-		if !exp.none && (k != exp.slotOff || sp != exp.space) {
+		if len(w.sc.Heights) == 0 && !exp.none && (k != exp.slotOff || sp != exp.space) {
 			viol("not-earliest-best", fmt.Sprintf("block %d uses space %d at slot offset %d; reference: space %d at the earliest winning slot offset %d", n, sp, k, exp.space, exp.slotOff))
 			return
 		}
-		if exp.none {
+		if exp.none && len(w.sc.Heights) == 0 {
 			viol("no-winner-but-submitted", fmt.Sprintf("block %d submitted although no eligible proof exceeds the target within the explored slots", n))
 			return
 		}
@@ -573,7 +595,14 @@ func c8Check(r *vk.Run, w *c8World, sched []string, st *c8Stats) {
 	}
 	// completeness on the undisturbed schedule: the reference winner must be submitted
 	winTs := w.tsBase.Add(realtime.Duration(exp.slotOff*pocSlot) * realtime.Second)
-	if len(firstEvent) == 0 && !exp.none && len(w.submits) == 0 && w.endTime.After(winTs.Add(2*realtime.Second)) {
+	distinctHeights := map[uint64]bool{}
+	for _, h := range w.sc.Heights {
+		distinctHeights[h] = true
+	}
+	if len(distinctHeights) >= 2 && len(firstEvent) == 0 && len(accepted) < 2 {
+		viol("reorg-scenario-vacuous", "the reorg scenario did not get to a second accepted block within its horizon (harness horizon too short)")
+	}
+	if len(w.sc.Heights) == 0 && len(firstEvent) == 0 && !exp.none && len(w.submits) == 0 && w.endTime.After(winTs.Add(2*realtime.Second)) {
 		viol("winner-not-submitted", fmt.Sprintf("reference: space %d wins at slot offset %d, but nothing was submitted within the horizon", exp.space, exp.slotOff))
 	}
 	st.outcomes[fmt.Sprintf("%s/%s/%d: submits=%d events=%v", w.sc.Proofs, w.sc.Target, w.sc.OffsetSec, len(w.submits), firstEvent)] = true
@@ -586,7 +615,11 @@ func (w *c8World) run(sched []string) []string {
 	w.eventTime = map[int]realtime.Time{}
 	w.signsAt = map[int]int{}
 	full := append([]string{}, sched...)
-	for len(full) < c8Horizon {
+	hz := c8Horizon
+	if w.sc.Horizon > 0 {
+		hz = w.sc.Horizon
+	}
+	for len(full) < hz {
 		full = append(full, "tick")
 	}
 	var done []string
@@ -642,6 +675,10 @@ func c8Scenarios(r *vk.Run) []c8Scenario {
 				out = append(out, c8Scenario{Proofs: ps, Target: fmt.Sprintf("step:%d", j), OffsetSec: off, Accept: "accept"})
 			}
 		}
+	}
+	// reorgs: the chain re-offers an already mined height after a higher one was mined
+	for _, hs := range [][]uint64{{100, 101, 100, 100}, {100, 100, 100}, {100, 101, 102, 100, 101}} {
+		out = append(out, c8Scenario{Proofs: "V", Target: "const:0", OffsetSec: 0, Accept: "accept", Heights: hs, Horizon: 90})
 	}
 	// rejected / orphaned submissions (the height may then be mined again, but never twice successfully)
 	for _, acc := range []string{"reject", "orphan"} {
